@@ -151,7 +151,10 @@ def run(ctx):
     # --- equality is structural identity
     import random
     rng = random.Random(ctx.seed + 160)
-    sample = tl if len(tl) <= 350 else rng.sample(tl, 350)
+    # every small tree (the atoms, incl. literals of equal value and different spelling) and a random sample of the rest
+    small = [x for x in tl if len(json.dumps(x)) < 140]
+    rest = [x for x in tl if len(json.dumps(x)) >= 140]
+    sample = small[:250] + (rest if len(rest) <= 250 else rng.sample(rest, 250))
     built = [project.build(x) for x in sample]
     for i in range(len(sample)):
         if not (built[i] == project.build(sample[i])):
